@@ -77,3 +77,12 @@ package parse
 //@ func parseBoolValue
 //@ trusted
 //@ pure
+
+//@ ghost func parseOk(content string) bool
+//@ ghost func parsedVal(content string) interface{}
+
+//@ func Value :: content -> r, err
+//@ trusted
+//@ pure
+//@ ensures (err == nil) == parseOk(content)
+//@ ensures err == nil ==> r == parsedVal(content)
